@@ -381,6 +381,9 @@ def replay(data):
     if 'history' in data:
         from . import histcheck
         return histcheck.replay('C13', data)
+    if data.get('part') == 'readonly':
+        from . import c14
+        return c14.replay(data)
     if data['part'] == 'webhook-job':
         from . import c17
         return data['label'] in c17.cache_concrete(data['kind'], data['vals'])
@@ -469,4 +472,7 @@ def check(rep):
     webhook_events_part(rep)
     from . import histcheck
     histcheck.check(rep, 'C13')
-
+    # the order in which pending jobs are evaluated is the order of the task queue: no request that
+    # only reads (status page, job listings) may change it (shared with C14)
+    from . import c14
+    c14.readonly_part(rep, 'C13')
